@@ -14,7 +14,7 @@ tmp = tempfile.mkdtemp(prefix="cinco-show-")
 try:
     shutil.copytree("/repo/cincoconfig", os.path.join(tmp, "cincoconfig"), ignore=shutil.ignore_patterns("__pycache__"))
     if patch:
-        subprocess.run(["patch", "-p1", "-s", "-i", package_part(patch)], cwd=tmp, check=True)
+        subprocess.run(["patch", "-p1", "-s"], input=package_part(patch), text=True, cwd=tmp, check=True)
     m = Model(tmp)
     for q in args:
         for fn in m.functions:
